@@ -145,7 +145,7 @@ def scripts():
     same path (same key / other key / no key, both overwrite settings), then load."""
     out = []
     for (pn, kind, fn) in PATHS:
-        keys = ["", "k"] if kind == "npz" else [""]
+        keys = ["", "k", "0"] if kind == "npz" else [""]  # ("0": a key is a name, never a position in the archive)
         for k1 in keys:
             for k2 in keys:
                 for ow1 in (False, True):
@@ -252,7 +252,7 @@ def drive(run, tier, rng, focus):
                             ev.update(p={"name": pn, "kind": kind}, key=key, D=D, file=inspect_file(path, kind))
                         elif op == "save":
                             pn, kind, fn = rng.choice(PATHS)
-                            key = rng.choice(["", "", "k", "arr_1"]) if kind == "npz" else ""
+                            key = rng.choice(["", "", "k", "arr_1", "1", "0"]) if kind == "npz" else ""
                             ow = rng.random() < 0.5
                             if forced is not None:
                                 (pn, kind, fn), key, ow = forced[2], forced[3], forced[4]
